@@ -29,18 +29,14 @@ def Agree (o : Opts) (bytes : List Nat) (ops : List Op) : Prop :=
 instance (o : Opts) (bytes : List Nat) (ops : List Op) : Decidable (Agree o bytes ops) := by
   unfold Agree; infer_instance
 
-/-- F08: `S` is a data record without definition — a fresh decoder rejects it; after `PeekFileId` + `Discard` of the
-preceding sequence `P` it is decoded with `P`'s definition. -/
-theorem C07_witness_leak_discard : ¬ Agree {} (P ++ S) [.peekFileId, .discard, .decode] := by decide
-
-/-- F08: the same through `Reset` onto a new reader. -/
-theorem C07_witness_leak_reset : ¬ Agree {} P [.peekFileId, .reset {} S, .decode] := by decide
-
-/-- F09: `Q` has no file_id message: `PeekFileId` reads past it and `Decode` then rejects a sequence a fresh decoder accepts. -/
+/-- F09 (open finding KF-C07-2): `Q` has no file_id message: `PeekFileId` reads past it and `Decode` then rejects a
+sequence a fresh decoder accepts. -/
 theorem C07_witness_peek_past : ¬ Agree {} (Q ++ P) [.peekFileId, .decode] := by decide
 
-/-- F10: a failing `CheckIntegrity` (corrupt second sequence `B`) leaves the third sequence in the read buffer; after the
-re-seek `Decode` returns it instead of the first. -/
-theorem C07_witness_leftover : ¬ Agree {} (P ++ B ++ S) [.checkIntegrity, .decode] := by decide
+/-- the witnesses of the two repaired defects now meet the specification: F08 (`S` is a data record without
+definition; it used to be decoded with `P`'s definition after `PeekFileId` + `Discard` / `Reset`), F10 (a failing
+`CheckIntegrity` used to leave the third sequence of the chain in the read buffer) -/
+example : Agree {} (P ++ S) [.peekFileId, .discard, .decode] ∧ Agree {} P [.peekFileId, .reset {} S, .decode] ∧
+    Agree {} (P ++ B ++ S) [.checkIntegrity, .decode] := by decide
 
 end Fit.C07
